@@ -41,3 +41,12 @@ contract(
              "is_dict(item(pushed, 0).arguments)", "has(item(pushed, 0).arguments, 'type')", "has(item(pushed, 0).arguments, 'error')"],
     raises={},
 )
+
+# the try statement around `slide` catches EVERY Exception (coverage obligation: the body is abstracted to "may raise any Exception
+# subclass"; the handler's own statements are the block contract above)
+classes({"ColangRuntimeError": ["Exception"], "ColangValueError": ["Exception"], "ColangSyntaxError": ["Exception"]})
+contract(
+    SM, "_advance_head_front", prop="C10", block="Try", abstract_try=True, unreached_ok="*",
+    vars={"state": "V", "flow_state": "V", "flow_config": "V", "head": "V"},
+    requires=["is_obj(state)"], ensures=["True"], raises={},
+)
